@@ -267,6 +267,15 @@ def _bad_op(rng, sh, k, corrupt_fn=None):
             sfx = "+" if rt == "O" else ""
             first, second = "%s\t%s\t%s%s" % (rt, x, y, sfx), "%s\t%s\t%s%s" % (rt, x, sh.fresh(rng), sfx)
             sh.note(first)
+            if rng.random() < 0.4:
+                how = "append_item"      # the replaced object is the caller's again: editing it is not editing the group
+            elif rng.random() < 0.4:
+                # ... and it can be added again under another name, and removed: the merged group is not concerned
+                nn = sh.fresh(rng)
+                return kind, [{"op": "add", "line": first, "as": "obj"}, {"op": "hold", "what": "last_obj"},
+                              {"op": "add", "line": second, "as": "str"},
+                              {"op": "held_call", "how": "rename_add", "new": nn},
+                              {"op": "held_call", "how": rng.choice(["rm", "disconnect"]), "new": nn}]
             return kind, [{"op": "add", "line": first, "as": "obj"}, {"op": "hold", "what": "last_obj"},
                           {"op": "add", "line": second, "as": "str"}, {"op": "held_call", "how": how, "new": sh.fresh(rng)}]
         if v == "gfa1":
